@@ -227,6 +227,29 @@ class C05(Check):
             B.ask("post %d %s" % (len(p["due"]), " ".join("%d %d %d %s %s" % (d[0], d[1], d[2], d[3], F(d[4])) for d in p["due"])), cb3)
         npass = 0
         for p in tr.pre:
+            if not p.get("usable_rules") or npass >= cap:
+                continue
+            npass += 1
+            ctx.case(("prer", sig, p["t0"], len(p["due"]), len(p["rules"])))
+            ctx.count("pre-pass-with-rules" + (":rule-decided" if p["t1"] != p["t0"] and all(int(p["t0"]) - d[5] != int(p["t1"]) for d in p["due"]) else "")
+                      + (":rules-fired" if any(a for _, a in p["rules"]) else ""))
+            B.ask(K.links_line(tr.kinds, p["before"]))
+
+            def cb5(ans, p=p):
+                head, rest = ans.split(" | ")
+                t1, ri1, ch = head.split()
+                got = K.parse_links(rest)
+                if got != [tuple(x) for x in p["after"]] or int(t1) != int(p["t1"]) or int(ri1) != p["ri1"]:
+                    broken.append(Broken("correspondence", "presolve pass with rules vs Controls.presolveRules",
+                                         "%s t0=%s rule_iter=%s due=%s rules=%s\n impl  t1=%s rule_iter=%s %s\n model t1=%s rule_iter=%s %s"
+                                         % (label, p["t0"], p["ri0"], p["due"], p["rules"], p["t1"], p["ri1"], p["after"], t1, ri1, got)))
+
+            B.ask("prer %d %d %d %d %d %s R %d %s" % (
+                1 if p["first"] else 0, int(p["t0"]), p["rule_step"], p["ri0"], len(p["due"]),
+                " ".join("%d %d %d %s %s %d" % (d[0], d[1], d[2], d[3], F(d[4]), d[5]) for d in p["due"]), len(p["rules"]),
+                " ".join("%d %d %s" % (tt, len(acts), " ".join("%d %d %s %s" % (a[0], a[1], a[2], F(a[3])) for a in acts)) for tt, acts in p["rules"])), cb5)
+        npass = 0
+        for p in tr.pre:
             if not p["usable"] or npass >= cap:
                 continue
             npass += 1
@@ -413,6 +436,9 @@ class C05(Check):
         specs.append(("designed/priority-conflict-high-first", K.priority_conflict_spec(True), None))
         specs.append(("designed/priority-conflict-high-last", K.priority_conflict_spec(False), None))
         specs.append(("designed/priority-conflict-equal", K.priority_conflict_spec(True, True), None))
+        # a RULE with a tank-level premise, rule step < hydraulic step, alone and next to a simple level control
+        specs.append(("designed/rule-level-premise", K.rule_level_spec(False), None))
+        specs.append(("designed/rule-level-premise+simple", K.rule_level_spec(True), None))
         # setting / base_speed controls of low priority against an explicit CLOSED of higher priority (companion controls)
         for kind in ("valve", "pump"):
             for cf in (False, True):
